@@ -137,7 +137,7 @@ func (g *gen) execCall(fr *frame, cur *node, st *State, c *ssa.CallCommon, pos t
 		}
 	}
 	if fr.top && key != "" && instr != nil && len(g.fs.PreCalls) > 0 {
-		g.preCallAsserts(fr, cur, st, key, instr, pos)
+		g.preCallAsserts(fr, cur, st, key, instr, pos, c)
 	}
 	if fr.top && key != "" {
 		if vfs, vargs, vsig, ok := g.callSiteOverride(fr, st, key, instr); ok {
@@ -670,9 +670,12 @@ func (g *gen) execAppend(fr *frame, cur *node, st *State, c *ssa.CallCommon, pos
 func (g *gen) execCopy(fr *frame, cur *node, st *State, c *ssa.CallCommon, pos token.Pos) Val {
 	dst := g.sval(fr, c.Args[0])
 	dt, ok := c.Args[0].Type().Underlying().(*types.Slice)
-	if !g.c.strMode || !ok || !isByte(dt.Elem()) {
-		g.errorf("%s: copy is only supported for byte slices in strings mode", g.name)
+	if !ok || !isByte(dt.Elem()) {
+		g.errorf("%s: copy is only supported for byte slices", g.name)
 		return g.c.fresh("copied", "Int")
+	}
+	if !g.c.strMode {
+		return g.execCopyAbstract(fr, cur, st, c, dst, pos)
 	}
 	var src, slen string
 	if sortOf(c.Args[1].Type()) == "Str" {
@@ -686,6 +689,44 @@ func (g *gen) execCopy(fr *frame, cur *node, st *State, c *ssa.CallCommon, pos t
 	n := g.c.fresh("copied", "Int")
 	cur.assume(app("=", n, app("ite", app("<", app("slen", dst), slen), app("slen", dst), slen)))
 	g.spliceBytes(cur, st, app("sbase", dst), app("soff", dst), n, src)
+	return n
+}
+
+// execCopyAbstract: copy into a byte slice with abstract byte strings. The destination buffer gets
+// new contents of the same length: the copied range equals the source prefix, the ranges before and
+// after it are unchanged. Writing into a buffer that existed before the call is an obligation where
+// byte cells are declared immutable.
+func (g *gen) execCopyAbstract(fr *frame, cur *node, st *State, c *ssa.CallCommon, dst string, pos token.Pos) Val {
+	g.c.declareSort("Bytes")
+	g.c.declareFun("bsub", []string{"Bytes", "Int", "Int"}, "Bytes")
+	g.c.declareFun("u_blen", []string{"Bytes"}, "Int")
+	var src, slen string
+	if sortOf(c.Args[1].Type()) == "Str" {
+		s := g.sval(fr, c.Args[1])
+		g.c.declareFun("s2b", []string{"Str"}, "Bytes")
+		src = app("s2b", s)
+		slen = app("strlen", s)
+		cur.assume(app("=", app("u_blen", src), slen))
+	} else {
+		s := g.sval(fr, c.Args[1])
+		src = g.bytesOf(st, s)
+		slen = app("slen", s)
+	}
+	n := g.c.fresh("copied", "Int")
+	cur.assume(app("=", n, app("ite", app("<", app("slen", dst), slen), app("slen", dst), slen)))
+	if g.cellsImmutable(types.Typ[types.Byte]) {
+		g.safety(cur, "immutable", "cells", pos, or(app("=", n, "0"), app(">=", app("sbase", dst), g.c.declareConst("$nxt@init", "Int"))))
+	}
+	m := g.svGet(st, "$bytes", "(Array Int Bytes)")
+	old := app("select", m, app("sbase", dst))
+	nb := g.c.fresh("copybytes", "Bytes")
+	off := app("soff", dst)
+	end := app("+", off, n)
+	cur.assume(app("=", app("u_blen", nb), app("u_blen", old)))
+	cur.assume(app("=", app("bsub", nb, off, n), app("bsub", src, "0", n)))
+	cur.assume(app("=", app("bsub", nb, "0", off), app("bsub", old, "0", off)))
+	cur.assume(app("=", app("bsub", nb, end, app("-", app("u_blen", old), end)), app("bsub", old, end, app("-", app("u_blen", old), end))))
+	g.svAssign(cur, st, "$bytes", "(Array Int Bytes)", app("store", m, app("sbase", dst), nb))
 	return n
 }
 
@@ -720,7 +761,7 @@ func (g *gen) callOrdinal(fr *frame, key string, instr ssa.Instruction) int {
 	return ord
 }
 
-func (g *gen) preCallAsserts(fr *frame, cur *node, st *State, key string, instr ssa.Instruction, pos token.Pos) {
+func (g *gen) preCallAsserts(fr *frame, cur *node, st *State, key string, instr ssa.Instruction, pos token.Pos, cc *ssa.CallCommon) {
 	for _, pc := range g.fs.PreCalls {
 		if pc.Callee != key && pc.Callee != shortKey(key) {
 			continue
@@ -732,6 +773,23 @@ func (g *gen) preCallAsserts(fr *frame, cur *node, st *State, key string, instr 
 		for k, v := range g.localEnvAt(fr, instr.Block(), instrIndexOf(instr.Block(), instr), st) {
 			if _, bound := e.vars[k]; !bound {
 				e.vars[k] = v
+			}
+		}
+		// $arg0, $arg1, ...: the arguments of the call (without the receiver), $recv: its receiver
+		if cc != nil {
+			for i, a := range cc.Args {
+				name := fmt.Sprintf("$arg%d", i)
+				if cc.Signature().Recv() != nil && !cc.IsInvoke() {
+					if i == 0 {
+						name = "$recv"
+					} else {
+						name = fmt.Sprintf("$arg%d", i-1)
+					}
+				}
+				e.vars[name] = binding{g.val(fr, a), xtOf(a.Type())}
+			}
+			if cc.IsInvoke() {
+				e.vars["$recv"] = binding{g.val(fr, cc.Value), xtOf(cc.Value.Type())}
 			}
 		}
 		t, err := e.trAssert(pc.C.E)
